@@ -102,3 +102,35 @@ class Reporter:
             ', '.join('%s=%s' % (k, coverage[k]) for k in ('states', 'transitions', 'traces_validated_against_impl')
                       if k in coverage)))
         return 1 if self.violations else 0
+
+
+class CallTimeout(Exception):
+    pass
+
+
+class watchdog:
+    """Context manager: raises CallTimeout inside the block when it runs longer than `seconds` (a library call that does
+    not return - e.g. a sweep loop that never terminates - is reported by the caller as a violation, the check itself
+    keeps going).  Uses SIGALRM: only in the main thread of a (worker) process; a no-op elsewhere."""
+
+    def __init__(self, seconds=None):
+        self.seconds = seconds or float(os.environ.get('VERIF_CALL_TIMEOUT', '300'))
+        self.armed = False
+
+    def __enter__(self):
+        import signal
+        import threading
+        if threading.current_thread() is threading.main_thread() and hasattr(signal, 'SIGALRM'):
+            def handler(signum, frame):
+                raise CallTimeout('no result within %g s' % self.seconds)
+            self.old = signal.signal(signal.SIGALRM, handler)
+            signal.setitimer(signal.ITIMER_REAL, self.seconds)
+            self.armed = True
+        return self
+
+    def __exit__(self, *exc):
+        if self.armed:
+            import signal
+            signal.setitimer(signal.ITIMER_REAL, 0)
+            signal.signal(signal.SIGALRM, self.old)
+        return False
